@@ -427,6 +427,10 @@ def gen_sync():
     # the relay call of the host closure is outside the `if` that sets the parent
     relay_always = bool(re.search(r"add_child\(\w+\);(world\.resource_mut::<SyncTrackerRes>\(\)\.parent_pushed_from_network\(\w+\);)?\}repeat_except_for_client\(", sa))
     handler_pair = all(re.search(r"if\w+\.is_none\(\)\|\|\w+\.unwrap\(\)\.get\(\)!=\w+\{\w+\.set_parent\(", a) for a in (sa, ca))
+    # the decision "is the link already in place" is taken inside the deferred closure, in message order: nothing but the two
+    # uuid look-ups stands between the arm and `cmd.add` on the client, nothing at all on the host
+    handler_pair = handler_pair and ("=>{letSome(&c_e_id)=track.uuid_to_entity.get(&e_id)else{return;};letSome(&c_p_id)=track.uuid_to_entity.get(&p_id)else{return;};cmd.add(move|world:&mutWorld|{" in ca) \
+        and ("=>{cmd.add(move|world:&mutWorld|{lettrack=world.resource::<SyncTrackerRes>();" in sa)
     text += "/-- both EntityParented handlers file a debounce token when (and only when) they change the link, both entity_parented_on_* consume it (D3) -/\n"
     text += "def parentDebounced : Bool := %s\n" % str(apply_tokens and announce_skips).lower()
     text += "/-- the host relays a received link to the other clients whether or not it changed the host's link -/\n"
@@ -582,9 +586,13 @@ def gen_conn():
     server_conds = (
         "server_connected.run_if(resource_exists::<RenetServer>).run_if(in_state(ServerState::Disconnected)).run_if(resource_added::<NetcodeServerTransport>)" in smod
         and "server_disconnected.run_if(resource_exists::<RenetServer>).run_if(in_state(ServerState::Connected)).run_if(resource_removed::<NetcodeServerTransport>())" in smod)
-    client_conds = (
-        "set_client_to_connecting.run_if(resource_exists::<RenetClient>).run_if(resource_added::<NetcodeClientTransport>).run_if(in_state(ClientState::Disconnected))" in cmod
-        and "verify_client_connected.run_if(resource_exists::<RenetClient>).run_if(resource_exists::<NetcodeClientTransport>).run_if(in_state(ClientState::Connecting))" in cmod)
+    if "set_client_to_connecting.run_if(resource_exists::<RenetClient>).run_if(resource_added::<NetcodeClientTransport>).run_if(in_state(ClientState::Disconnected))" in cmod:
+        strict = True
+    elif "set_client_to_connecting.run_if(resource_exists::<RenetClient>).run_if(resource_added::<NetcodeClientTransport>)," in cmod:
+        strict = False
+    else:
+        raise TranslateError("set_client_to_connecting: run conditions not recognised")
+    client_conds = "verify_client_connected.run_if(resource_exists::<RenetClient>).run_if(resource_exists::<NetcodeClientTransport>).run_if(in_state(ClientState::Connecting))" in cmod
     if "set_client_to_disconnected.run_if(resource_exists::<RenetClient>).run_if(resource_removed::<NetcodeClientTransport>()).run_if(in_state(ClientState::Connected))" in cmod:
         legacy = True
     elif "set_client_to_disconnected.run_if(resource_exists::<RenetClient>).run_if(resource_removed::<NetcodeClientTransport>()).run_if(not(in_state(ClientState::Disconnected)))" in cmod:
@@ -599,7 +607,7 @@ def gen_conn():
               and "Message::FinishedInitialSync=>{event_sync_finished.send(InitialSyncFinished);}" in crecv
               and sinit.count("Message::FinishedInitialSync") == 1)
     text = "/-! GENERATED by /verif/translate/translate.py from src/{server,client}/mod.rs, src/client/receiver.rs, src/server/initial_sync.rs — do not edit. -/\nnamespace BevySync\nnamespace Generated\n\n"
-    for name, val in (("connServerConditions", server_conds), ("connClientConditions", client_conds), ("connClientDisconnectLegacy", legacy),
+    for name, val in (("connServerConditions", server_conds), ("connClientConditions", client_conds), ("connClientDisconnectLegacy", legacy), ("connConnectingOnlyFromDisconnected", strict),
                       ("connReplicationGated", gates), ("connVerifyChecksTransport", verify_checks), ("connSyncFinishedSites", events)):
         text += "def %s : Bool := %s\n" % (name, str(bool(val)).lower())
     text += FOOTER
